@@ -76,23 +76,74 @@ func runC17(p *Prog, r *Report) {
 	ruleGlobal(p, r)
 	r.Explain = append(r.Explain, "R-FONT: with every value of type *font.Font as root, no such mutation targets font-derived memory in any function reachable from the exported API without entering a constructor (a function returning *font.Font); this subsumes storing a per-goroutine object into a shared font (R-ESC).")
 	ruleFont(p, r, fontCfg{pkg: "font", typ: "Font"})
+	ruleNoUnsafe(p, r, nil)
+	r.Assumptions = append(r.Assumptions,
+		"external packages (standard library, golang.org/x/text, golang.org/x/image) keep no mutable state reachable from the arguments they are given, except the listed mutators (sort.*, binary.*.Put*, io.Read*) whose written argument is checked",
+		"origin tracking follows pointers into root-owned memory (fields, elements, slices, loads, calls, returns, closures, field-based heap for direct field stores); a root-derived reference stored as an ELEMENT of a slice or map that is not itself root-derived is not followed when loaded back unless its type is *font.Font (roots are re-discovered by type)",
+		"no unsafe, reflection-based writes or cgo in the module (checked: no package imports unsafe or cgo, and every call into reflect is TypeOf, DeepEqual or a method of reflect.Type)",
+		"a constructor is any function returning *font.Font; functions reachable only through constructors are construction-time")
+	r.NotDecided = append(r.NotDecided, "that concurrent results equal sequential results beyond the absence of shared mutable state (e.g. map iteration order)", "races on per-goroutine objects that a caller shares against the documented contract (Face, Buffer, shapers)")
+}
+
+// ruleNoUnsafe — R-NOUNSAFE. only (optional) restricts the packages examined (controls).
+func ruleNoUnsafe(p *Prog, r *Report, only map[string]bool) {
+	// reflect is tolerated for the read-only questions only (the type of a value, deep equality): every call of the package
+	// into reflect must be one of them; unsafe and cgo are not tolerated at all
+	reflectWrites := map[string]string{} // package path -> first call of reflect that may write (or that is not known to be read-only)
+	for _, f := range p.ModFns() {
+		if fnPkg(f) == nil {
+			continue
+		}
+		for _, b := range f.Blocks {
+			for _, in := range b.Instrs {
+				c, ok := in.(ssa.CallInstruction)
+				if !ok {
+					continue
+				}
+				name := ""
+				if sc := c.Common().StaticCallee(); sc != nil && fnPkg(sc) != nil && fnPkg(sc).Path() == "reflect" {
+					name = sc.Name()
+					if sc.Signature.Recv() != nil {
+						name = sc.Signature.Recv().Type().String() + "." + name
+					}
+				} else if c.Common().IsInvoke() {
+					if nt, ok := c.Common().Value.Type().(*types.Named); ok && nt.Obj().Pkg() != nil && nt.Obj().Pkg().Path() == "reflect" {
+						if nt.Obj().Name() == "Type" {
+							continue // the methods of reflect.Type only read
+						}
+						name = nt.Obj().Name() + "." + c.Common().Method.Name()
+					}
+				}
+				if name == "" || name == "TypeOf" || name == "DeepEqual" || name == "init" { // init: the package initializer of reflect, called by the importer's
+					continue
+				}
+				if reflectWrites[fnPkg(f).Path()] == "" {
+					reflectWrites[fnPkg(f).Path()] = name + " at " + p.IPos(in)
+				}
+			}
+		}
+	}
 	for _, pk := range p.Pkgs {
+		if only != nil && !only[pk.PkgPath] {
+			continue
+		}
 		bad := ""
 		for path := range pk.Imports {
-			if path == "unsafe" || path == "reflect" || path == "C" {
-				bad = path
+			if path == "unsafe" || path == "C" {
+				bad = "imports " + path
+			}
+			if path == "reflect" && reflectWrites[pk.PkgPath] != "" {
+				bad = "calls reflect." + reflectWrites[pk.PkgPath]
 			}
 		}
 		key := "imports/" + strings.TrimPrefix(pk.PkgPath, p.ModPath+"/")
 		r.Instance("R-NOUNSAFE", key)
-		r.Check(bad == "", "R-NOUNSAFE", key, "-", "imports neither unsafe, reflect nor cgo (the effect analysis would not see writes made through them)")
+		detail := "imports neither unsafe nor cgo, and uses reflect for read-only questions at most (TypeOf, DeepEqual, methods of reflect.Type): the effect analysis would not see writes made through them"
+		if bad != "" {
+			detail = bad + ": " + detail
+		}
+		r.Check(bad == "", "R-NOUNSAFE", key, "-", detail)
 	}
-	r.Assumptions = append(r.Assumptions,
-		"external packages (standard library, golang.org/x/text, golang.org/x/image) keep no mutable state reachable from the arguments they are given, except the listed mutators (sort.*, binary.*.Put*, io.Read*) whose written argument is checked",
-		"origin tracking follows pointers into root-owned memory (fields, elements, slices, loads, calls, returns, closures, field-based heap for direct field stores); a root-derived reference stored as an ELEMENT of a slice or map that is not itself root-derived is not followed when loaded back unless its type is *font.Font (roots are re-discovered by type)",
-		"no unsafe, reflection-based writes or cgo in the module (checked: the module imports neither unsafe nor reflect for writing)",
-		"a constructor is any function returning *font.Font; functions reachable only through constructors are construction-time")
-	r.NotDecided = append(r.NotDecided, "that concurrent results equal sequential results beyond the absence of shared mutable state (e.g. map iteration order)", "races on per-goroutine objects that a caller shares against the documented contract (Face, Buffer, shapers)")
 }
 
 func ruleGlobal(p *Prog, r *Report) { ruleGlobalIn(p, r, "") }
@@ -391,4 +442,7 @@ func controlsC17(cp *Prog, r *Report) {
 		"shared.SumBad/shared.scratch", "shared.CachedBad/shared.table", "shared.TweakBad/shared.lookup")
 	expectControl(r, "R-FONT", func(cr *Report) { ruleFont(cp, cr, fontCfg{pkg: "shared", typ: "Font"}) },
 		"(*shared.Face).AdvanceMemoBad", "shared.side", "(*shared.Font).lazy")
+	expectControl(r, "R-NOUNSAFE", func(cr *Report) {
+		ruleNoUnsafe(cp, cr, map[string]bool{cp.pkgPath("reflw"): true, cp.pkgPath("reflr"): true})
+	}, "imports/reflw")
 }
